@@ -709,6 +709,16 @@ fn main() {
                 continue;
             }
         }
+        if doc.contains("...") {
+            // fragments at the subscription root: collect_subscription_streams does not look into
+            // them (no stream is created for fields inside).  Not part of the property: recorded, not judged.
+            for acts in &scheds {
+                let ro = run_schedule(&schema, &sc, w.clone(), acts);
+                let imp = ro.polls.iter().map(|p| format!("[{}]", p.iter().map(obs_text).collect::<Vec<_>>().join(", "))).collect::<Vec<_>>().join(" ");
+                writeln!(em.out, "ROOTFRAG\t\t{}", jstr(&format!("{} | {} -> {}", doc, acts.iter().map(|a| a.text()).collect::<Vec<_>>().join("; "), imp))).unwrap();
+            }
+            continue;
+        }
         let Some(name) = em.scenario(&sc, &w) else { continue };
         for acts in &scheds {
             let ro = run_schedule(&schema, &sc, w.clone(), acts);
